@@ -136,6 +136,8 @@ pub struct SimB {
     violations: Vec<Violation>,
     property: &'static str,
     next_content: u64,
+    /// Has the client been through a simulated crash?
+    crashed: bool,
 }
 
 fn notify_uri() -> String {
@@ -200,6 +202,7 @@ impl SimB {
             srv, srv_history: Vec::new(), http, last_ok: None, kill,
             stats: Stats::default(), log: Vec::new(), ops: Vec::new(),
             violations: Vec::new(), property, next_content: 0,
+            crashed: false,
         };
         // Initial content.
         for _ in 0..3 {
@@ -511,6 +514,14 @@ impl SimB {
     ) -> Option<bool> {
         let state = self.srv_history[view].clone();
         let routes = self.routes(&state, fault);
+        self.client_update_with(step, view, fault, restart, routes)
+    }
+
+    fn client_update_with(
+        &mut self, step: usize, view: usize, fault: Fault, restart: bool,
+        routes: BTreeMap<String, Route>,
+    ) -> Option<bool> {
+        let state = self.srv_history[view].clone();
         self.http.set_routes(routes);
         let _ = self.http.take_log();
         let _ = restart;
@@ -550,11 +561,16 @@ impl SimB {
         self.stats.fault(&format!("{fault:?}").split('(').next().unwrap().to_string());
         match res {
             Err(fatal) => {
-                if fatal {
+                if fatal && !self.crashed {
                     self.violation("fatal", step, format!(
                         "repository update ended the run with a fatal error \
                          (fault {fault:?})"
                     ));
+                }
+                else if fatal {
+                    // After a crash a reported fatal error is not what C24
+                    // is about (nothing is reported as updated).
+                    self.stats.probe("fatal-after-crash");
                 }
                 else {
                     self.stats.probe("retryable-run-failure");
@@ -595,7 +611,13 @@ impl SimB {
                 let (session, serial, objects) = local;
                 // The version recorded in the archive.
                 let announced = (state.session.clone(), state.serial);
-                let want_version = if got_304 {
+                let want_version = if got_304 && self.crashed {
+                    // After a crash the copy may legitimately be at the
+                    // version the interrupted update was working on; only
+                    // its consistency is required.
+                    (session.clone(), serial)
+                }
+                else if got_304 {
                     match self.last_ok.clone() {
                         Some(ok) => ok,
                         None => {
@@ -707,4 +729,208 @@ pub fn run(
     seed: u64, thorough: bool, mask: &BTreeSet<(usize, usize)>, scratch: &Path,
 ) -> RunResult {
     SimB::new(seed, "C25", scratch, false).run(mask, thorough)
+}
+
+
+//------------ C24: crash points ---------------------------------------------
+
+impl SimB {
+    fn restore_cache(&self, from: &Path) {
+        let cache = self.scratch.join("cache");
+        let _ = std::fs::remove_dir_all(&cache);
+        copy_dir(from, &cache);
+    }
+
+    /// Runs the crash-point exploration. Returns the number of kill points
+    /// of the interrupted update and the number of images checked.
+    pub fn run_crash(
+        mut self, mask: &BTreeSet<(usize, usize)>, thorough: bool
+    ) -> RunResult {
+        use std::sync::atomic::Ordering;
+        let kill = self.kill.clone().expect("kill control");
+        // Phase 1: bring the client to a synced state.
+        let presync = 1 + self.rng.usize(3);
+        for step in 0..presync {
+            if step > 0 {
+                sim::clock::advance(60);
+                self.server_step(step);
+            }
+            let view = self.srv_history.len() - 1;
+            self.client_update(step, view, Fault::None, true);
+        }
+        // Phase 2: the update that gets interrupted.
+        let step = presync;
+        sim::clock::advance(120);
+        self.server_step(step);
+        if self.rng.chance(60, 100) {
+            // Make sure there is something to do.
+            self.mutate_server();
+            self.srv_history.push(self.srv.clone());
+        }
+        let view = self.srv_history.len() - 1;
+        let fault = if self.rng.chance(25, 100) {
+            *self.rng.pick(&[
+                Fault::DeltaHash, Fault::DeltaTruncated, Fault::SnapshotStatus(500),
+                Fault::DeltaAndSnapshotFail, Fault::DeltaBadWithdraw,
+            ])
+        } else { Fault::None };
+        let state = self.srv_history[view].clone();
+        let routes = self.routes(&state, fault);
+        let pre = self.scratch.join("pre");
+        let _ = std::fs::remove_dir_all(&pre);
+        copy_dir(&self.scratch.join("cache"), &pre);
+        let saved_ok = self.last_ok.clone();
+        let saved_log_len = self.log.len();
+
+        // Counting pass.
+        kill.counter.store(0, Ordering::SeqCst);
+        kill.at.store(-1, Ordering::SeqCst);
+        self.client_update_with(step, view, fault, true, routes.clone());
+        let n_points = kill.counter.load(Ordering::SeqCst);
+        self.stats.probes.insert("kill-points".into(), n_points as u64);
+        if !self.violations.is_empty() {
+            return self.finish_crash(step)
+        }
+        let after_ok = self.last_ok.clone();
+
+        // Which kill points to image.
+        let mut points: Vec<i64> = (0..n_points).collect();
+        if !thorough && points.len() > 12 {
+            let mut prng = Rng::new(mix(&[self.seed, 46]));
+            prng.shuffle(&mut points);
+            points.truncate(12);
+            points.sort();
+        }
+        let base_history = self.srv_history.clone();
+        let base_srv = self.srv.clone();
+        let mut images_checked = 0u64;
+        let mut seen_images: BTreeSet<Vec<u8>> = BTreeSet::new();
+        for &k in &points {
+            if mask.contains(&(step, k as usize)) {
+                continue
+            }
+            // Re-run the same update from the same state, imaging at k.
+            self.restore_cache(&pre);
+            self.last_ok = saved_ok.clone();
+            kill.counter.store(0, Ordering::SeqCst);
+            kill.at.store(k, Ordering::SeqCst);
+            *kill.taken_site.lock().unwrap() = None;
+            let ops_len = self.ops.len();
+            self.client_update_with(step, view, fault, true, routes.clone());
+            self.ops.truncate(ops_len);
+            kill.at.store(-1, Ordering::SeqCst);
+            let site = kill.taken_site.lock().unwrap().clone();
+            let Some(site) = site else { continue };
+            if !self.violations.is_empty() {
+                break
+            }
+            // De-duplicate identical images.
+            let digest = dir_digest(&kill.image);
+            if !seen_images.insert(digest) {
+                continue
+            }
+            images_checked += 1;
+            self.stats.fault(&format!("kill@{site}"));
+            // The crash: the process is gone, the image is what is left.
+            self.restore_cache(&kill.image);
+            self.last_ok = saved_ok.clone();
+            self.crashed = true;
+            self.srv_history = base_history.clone();
+            self.srv = base_srv.clone();
+            self.ops.push(json!({
+                "step": step, "k": k, "op": "kill", "site": site,
+                "of": n_points, "interrupted_fault": format!("{fault:?}"),
+            }));
+            self.log.push(format!(
+                "kill at point {k}/{n_points} ({site}) during update to {}#{}",
+                &state.session[..8], state.serial
+            ));
+            // Phase 3: life goes on.
+            let mut crng = Rng::new(mix(&[self.seed, 47, k as u64]));
+            let n_after = 1 + crng.usize(3);
+            for j in 0..n_after {
+                let astep = step + 1 + j;
+                sim::clock::advance(90);
+                if crng.chance(50, 100) {
+                    self.server_step(astep);
+                }
+                // Views: current, or a lagging one (in particular the one
+                // the client was synced to before the crash).
+                let cur = self.srv_history.len() - 1;
+                let v = match crng.below(10) {
+                    0..=3 => {
+                        // The pre-crash synced version, if known.
+                        saved_ok.as_ref().and_then(|ok| {
+                            self.srv_history.iter().position(|s| {
+                                s.session == ok.0 && s.serial == ok.1
+                            })
+                        }).unwrap_or(cur)
+                    }
+                    4 => crng.usize(cur + 1),
+                    _ => cur,
+                };
+                let f = if crng.chance(20, 100) {
+                    *crng.pick(FAULTS)
+                } else { Fault::None };
+                self.client_update(astep, v, f, true);
+                if !self.violations.is_empty() {
+                    break
+                }
+            }
+            if !self.violations.is_empty() {
+                break
+            }
+        }
+        let _ = (after_ok, saved_log_len);
+        self.stats.probes.insert("images-checked".into(), images_checked);
+        self.finish_crash(step)
+    }
+
+    fn finish_crash(mut self, step: usize) -> RunResult {
+        let _ = step;
+        routinator::verif::uninstall();
+        let _ = std::fs::remove_dir_all(&self.scratch);
+        self.stats.steps = self.stats.probes.get("images-checked").copied()
+            .unwrap_or(0);
+        self.stats.signature = format!(
+            "{:?}:{:?}", self.stats.faults, self.stats.probes
+        );
+        RunResult {
+            seed: self.seed, violations: self.violations, stats: self.stats,
+            log: self.log, ops: self.ops,
+        }
+    }
+}
+
+/// A digest over all files of a directory tree (names and content).
+pub fn dir_digest(dir: &Path) -> Vec<u8> {
+    fn walk(dir: &Path, base: &Path, ctx: &mut ring::digest::Context) {
+        let Ok(read) = std::fs::read_dir(dir) else { return };
+        let mut entries: Vec<_> = read.flatten().collect();
+        entries.sort_by_key(|e| e.file_name());
+        for entry in entries {
+            let path = entry.path();
+            if path.is_dir() {
+                walk(&path, base, ctx);
+            }
+            else {
+                ctx.update(path.strip_prefix(base).unwrap()
+                    .to_string_lossy().as_bytes());
+                ctx.update(&[0]);
+                if let Ok(data) = std::fs::read(&path) {
+                    ctx.update(&(data.len() as u64).to_be_bytes());
+                    ctx.update(&data);
+                }
+            }
+        }
+    }
+    let mut ctx = ring::digest::Context::new(&ring::digest::SHA256);
+    walk(dir, dir, &mut ctx);
+    ctx.finish().as_ref().to_vec()
+}
+
+pub fn run_c24(
+    seed: u64, thorough: bool, mask: &BTreeSet<(usize, usize)>, scratch: &Path,
+) -> RunResult {
+    SimB::new(seed, "C24", scratch, true).run_crash(mask, thorough)
 }
